@@ -1,3 +1,75 @@
-(* C13 — statements are added with the proofs; see DESIGN.md *)
+(* C13 — Every packet the client emits is well formed and retransmissions are identical (abstract-message level). Statements only; proofs live in the imported files. *)
 From Coq Require Import List NArith Bool.
-From Rustun Require Import Agent.Rto Agent.Model Agent.Monitors.
+Import ListNotations.
+From Rustun Require Import Agent.Rto Agent.Model Agent.Monitors Proofs.AgentInv Proofs.AgentTrace Proofs.AgentMech.
+Open Scope N_scope.
+
+(* integrity and fingerprint attributes are the final attributes, in the order MI, SHA256, FINGERPRINT, each at most once — for every mechanism, state and application list *)
+Theorem C13_tail_ok :
+  forall (c : client) (is_request : bool) (app : list attr) (x : attrs),
+         prepare c is_request app = inl (Some x) -> tail_ok (flatten x) = true.
+Proof. exact AgentMech.prepare_tail_ok. Qed.
+Print Assumptions C13_tail_ok.
+
+(* one attribute per type (application-supplied credential / integrity / fingerprint attributes are replaced, not duplicated) *)
+Theorem C13_types_nodup :
+  forall (c : client) (is_request : bool) (app : list attr) (x : attrs),
+         app_wf app -> prepare c is_request app = inl (Some x) -> types_nodup (flatten x) = true.
+Proof. exact AgentMech.prepare_types_nodup. Qed.
+Print Assumptions C13_types_nodup.
+
+(* the application's attributes come first, one per type in first-insertion order *)
+Theorem C13_app_prefix :
+  forall (c : client) (is_request : bool) (app : list attr) (x : attrs) (k : N),
+         app_wf app ->
+         mech_code_ok (mech_ c) k ->
+         prepare c is_request app = inl (Some x) ->
+         is_prefix (app_expected k (use_fp (cfg c)) app)
+           (filter (fun a : attr => negb (is_integ a || a_is_fp a)) (flatten x)) attr_eqb = true.
+Proof. exact AgentMech.prepare_app_prefix. Qed.
+Print Assumptions C13_app_prefix.
+
+Theorem C13_fingerprint_last :
+  forall (c : client) (is_request : bool) (app0 : list attr) (x : attrs),
+         use_fp (cfg c) = true ->
+         prepare c is_request app0 = inl (Some x) ->
+         last_attr (flatten x) = Some (AFP true) /\ (exists l : list attr, flatten x = l ++ [AFP true]).
+Proof. exact AgentMech.fingerprint_last. Qed.
+Print Assumptions C13_fingerprint_last.
+
+Theorem C13_st_layout :
+  forall (s : st_mech) (app0 : list attr),
+         flatten (st_prepare s (of_list app0)) =
+         remove_first 6 (ord (of_list app0)) ++ [UserName 0] ++ st_tail s ++ opt_list (sl_fp (of_list app0)) /\
+         has_ty 6 (remove_first 6 (ord (of_list app0))) = false.
+Proof. exact AgentMech.st_prepare_layout_client. Qed.
+Print Assumptions C13_st_layout.
+
+Theorem C13_lt_layout :
+  forall (c : client) (s : lt_mech) (p : lt_params) (app0 : list attr),
+         mech_ c = MLT s ->
+         lt_pr s = Some p ->
+         exists x : attrs,
+           prepare c true app0 = inl (Some x) /\
+           flatten x = ord (strip_lt (of_list app0)) ++ lt_creds (lt_st s) p ++ opt_list (client_fp c app0) /\
+           slot_ok a_is_fp (client_fp c app0).
+Proof. exact AgentMech.lt_client_layout. Qed.
+Print Assumptions C13_lt_layout.
+
+(* every retransmission is the packet first sent *)
+Theorem C13_retransmission_identical :
+  forall (c : client) (ops : list op) (pre : list event) (j : txid) (p : msg) (post : list event),
+         T c = [] -> snd (run c ops) = pre ++ Out j false p :: post -> In (Out j true p) pre.
+Proof. exact AgentMech.retransmission_identical. Qed.
+Print Assumptions C13_retransmission_identical.
+
+Theorem C13_retransmission_identical_step :
+  forall (c : client) (o : op) (c' : client) (r : reply) (evs : list event),
+         step c o = (c', r, evs) ->
+         (forall (j : txid) (p : msg),
+          In (Out j false p) evs -> exists x : txn, lookup j (T c) = Some x /\ pkt x = p) /\
+         (forall (j : txid) (x' : txn),
+          lookup j (T c') = Some x' ->
+          (exists x : txn, lookup j (T c) = Some x /\ pkt x' = pkt x) \/ In (Out j true (pkt x')) evs).
+Proof. exact AgentMech.retransmission_identical_step. Qed.
+Print Assumptions C13_retransmission_identical_step.
